@@ -500,12 +500,14 @@ class FromKafkaBatched(Source):
                  npartitions=None, refresh_partitions=False,
                  max_batch_size=10000, keys=False,
                  engine=None, **kwargs):
-        self.consumer_params = consumer_params
+        # work on a copy: the source rewrites 'auto.offset.reset' once it
+        # runs, which must not leak into a dict the caller may use again
+        self.consumer_params = dict(consumer_params)
         # Override the auto-commit config to enforce custom streamz
         # checkpointing
         self.consumer_params['enable.auto.commit'] = 'false'
         if 'auto.offset.reset' not in self.consumer_params.keys():
-            consumer_params['auto.offset.reset'] = 'latest'
+            self.consumer_params['auto.offset.reset'] = 'latest'
         self.topic = topic
         self.npartitions = npartitions
         self.refresh_partitions = refresh_partitions
